@@ -24,6 +24,10 @@ def run(ctx):
     ctx.assumptions += ["Needed(file) = referenced by the newest meta.json, or its segment is in the writer's registers (hook), or a writer object of the segment is alive",
                         "lock files and .managed.json / meta.json themselves are not counted as orphans"]
     vlib.mc_check(ctx, "GcProto", "GcProto_remote.cfg", timeout=300, workers=6, coverage=True)
+    if not ctx.quick:
+        # five segments (712,620 states, depth 40) and the negative twin (the reader does not take the meta lock)
+        vlib.mc_check(ctx, "GcProto", "GcProto_remote_deep.cfg", timeout=900, workers=6)
+        vlib.mc_check(ctx, "GcProto", "GcProto_remote_deep_neg.cfg", expect_violation="GcNeverDeletesNeeded", timeout=300, workers=4)
     vlib.mc_check(ctx, "GcProto", "GcProto_local.cfg", timeout=300, workers=6)
     vlib.mc_check(ctx, "GcProto", "GcProto_local_nolock.cfg", timeout=300, workers=6)
     vlib.mc_check(ctx, "GcProto", "GcProto_neg_reader.cfg", expect_violation="GcNeverDeletesNeeded", timeout=300, workers=4)
